@@ -1,8 +1,10 @@
 /- Line-protocol handlers of C04 (see harness/src/props/c04.rs for the token syntax). -/
 import Driver.Common
+import Driver.C04Rt
 import JaqVerif.C04.Tco
 import JaqVerif.C04.TailNest
 import JaqVerif.C04.Stack
+import JaqVerif.C04.Nest
 import JaqVerif.Gen.C04Defs
 
 namespace Jaq.Driver.C04
@@ -113,6 +115,37 @@ def scriptOfToks : Nat → List String → List Script.It
     ⟨hd.startsWith "e", items⟩ :: scriptOfToks k (rest.drop n)
   | _, [] => []
 
+def nestOfToks : Nat → List String → List Bool
+  | 0, _ => []
+  | k + 1, hd :: rest =>
+    let n := natOf (hd.drop 1).toString
+    (hd.startsWith "E" || hd.startsWith "I") :: nestOfToks k (rest.drop n)
+  | _, [] => []
+
+partial def parseAd : List String → Option (Ad × List String)
+  | [] => none
+  | tok :: r =>
+    if tok == "C" then do
+      let (a, r) ← parseAd r
+      let (b, r) ← parseAd r
+      pure (.chainAB a b, r)
+    else if tok == "Z" then do
+      let (s, r) ← parseAd r
+      pure (.lazyU s, r)
+    else if tok == "O-" then some (.once none, r)
+    else if tok.startsWith "Oo" then some (.once (some (.out (natOf (tok.drop 2).toString))), r)
+    else if tok.startsWith "Ot" then some (.once (some (.tail (natOf (tok.drop 2).toString))), r)
+    else none
+
+def adTrace : Nat → Ad → List String → List String
+  | 0, _, acc => acc
+  | n + 1, a, acc =>
+    let h := if a.hintZero then "h1" else "h0"
+    match a.next with
+    | some (.out v, a') => adTrace n a' (acc ++ [s!"{h}o{v}"])
+    | some (.tail k, a') => adTrace n a' (acc ++ [s!"{h}t{k}"])
+    | none => acc ++ [s!"{h}end"]
+
 def handlers : List (String × Handler) := [
   ("c04.compile", fun toks =>
     match parseProgram toks with
@@ -138,7 +171,21 @@ def handlers : List (String × Handler) := [
   ("c04.stack", fun toks =>
     match toks with
     | pulls :: k :: rest => Script.trace (scriptOfToks (natOf k) rest) (natOf pulls)
+    | _ => "bad-request"),
+  ("c04.adapters", fun toks =>
+    match toks with
+    | n :: rest =>
+      match parseAd rest with
+      | some (a, []) => " ".intercalate (adTrace (natOf n) a [])
+      | _ => "bad-request"
+    | _ => "bad-request"),
+  -- stacks of stacks: script heads `e|i|E|I<n>` (capital = instantiated as a nested `CatchOne` stack)
+  ("c04.nstack", fun toks =>
+    match toks with
+    | pulls :: k :: rest =>
+      let nest := nestOfToks (natOf k) rest
+      Script.ntrace (scriptOfToks (natOf k) (rest.map String.toLower)) nest (natOf pulls)
     | _ => "bad-request")
-]
+] ++ Jaq.Driver.C04Rt.handlers
 
 end Jaq.Driver.C04
